@@ -1,6 +1,6 @@
 (* C08 — property theorems (statements only; proofs live in Proofs*.v).  See notes/C08.md for the status of each. *)
 From Coq Require Import List ZArith QArith Qabs Bool.
-Require Import QV.C08.Model QV.C08.Spec QV.C08.Wf QV.C08.Proofs QV.C08.ProofsVec QV.C08.ProofsRev QV.C08.ProofsConst QV.C08.ProofsTotal QV.C08.ProofsProper QV.C08.ProofsCtor QV.C08.Hist QV.C08.ProofsHist QV.C08.ProofsTrafo QV.C08.ProofsConstT QV.C08.ProofsTotalT QV.C08.ProofsTable QV.C08.ProofsPar QV.C08.ProofsOp QV.C08.ProofsFlat QV.C08.ProofsDen QV.C08.ProofsSimple QV.C08.ProofsHistT QV.C08.Lin QV.C08.ProofsLin QV.C08.ProofsLinDen QV.C08.ProofsDedup QV.C08.ProofsLinHist QV.C08.ProofsR2 QV.C08.ProofsMirror QV.C08.ProofsOkb QV.C08.ProofsSubset QV.C08.ProofsRecipe QV.C08.ProofsRecipeT QV.C08.ProofsRecipeR QV.C08.ProofsMirrorT.
+Require Import QV.C08.Model QV.C08.Spec QV.C08.Wf QV.C08.Proofs QV.C08.ProofsVec QV.C08.ProofsRev QV.C08.ProofsConst QV.C08.ProofsTotal QV.C08.ProofsProper QV.C08.ProofsCtor QV.C08.Hist QV.C08.ProofsHist QV.C08.ProofsTrafo QV.C08.ProofsConstT QV.C08.ProofsTotalT QV.C08.ProofsTable QV.C08.ProofsPar QV.C08.ProofsOp QV.C08.ProofsFlat QV.C08.ProofsDen QV.C08.ProofsSimple QV.C08.ProofsHistT QV.C08.Lin QV.C08.ProofsLin QV.C08.ProofsLinDen QV.C08.ProofsDedup QV.C08.ProofsLinHist QV.C08.ProofsR2 QV.C08.ProofsMirror QV.C08.ProofsOkb QV.C08.ProofsSubset QV.C08.ProofsRecipe QV.C08.ProofsRecipeT QV.C08.ProofsRecipeR QV.C08.ProofsMirrorT QV.C08.ProofsTg QV.C08.ProofsSubsetK QV.C08.ProofsRecipeG.
 Import ListNotations.
 Open Scope Q_scope.
 
@@ -535,3 +535,39 @@ Theorem C08_constructors_getsubset_root : forall r cs b w' wp, revR r = true -> 
   oQeq (sample w' c t) (sample wp c t).
 Proof. exact constructors_getsubset_root. Qed.
 Print Assumptions C08_constructors_getsubset_root.
+
+(* ==== C08_constructors_statement for ALL construction recipes, under executable guards (closes the composed statement) ====
+   Every node kind, any nesting: table (validated or not), constant, function, sequence, multi-channel, repetition,
+   transformation (any kind), SubsetWaveform, get_subset_for_channels, arithmetic, functor, negation, ReversedWaveform,
+   from_to_reverse, reversed(); optimising or plain constructor at every node.  Guards: [allR r] = every transformation has
+   the shape its constructor guarantees and duplicate-free dict keys / output channels (nothing else is demanded of the
+   recipe); [kfree wp] = no transformation of the PLAIN composite raises KeyError for one of its output channels (known
+   finding C08-chain-parallel-linear-keyerror); [rg wp c t] = no ReversedWaveform that feeds the channel is asked at ITS local
+   time 0 (the class of C08_constructors_refuted / C08_subset_refuted; C08_time_guard_trivial_without_reversal).
+   Conclusion: the built waveform is well formed, has the channels and the duration of the plain composite, samples like
+   it, and the two invariants carried through [build]: KeyError freedom and the time guard [tg] of the built waveform. *)
+Theorem C08_constructors : forall r w wp, allR r = true -> build r = OK w -> build_plain r = OK wp -> kfree wp = true ->
+  okb w = true /\ (forall c, inb c (channels w) = inb c (channels wp)) /\ duration w == duration wp /\
+  (forall c t, inb c (channels wp) = true -> 0 <= t -> t < duration wp -> rg wp c t = true -> oQeq (sample w c t) (sample wp c t)) /\
+  (forall c, inb c (channels wp) = true -> kerr wp c = false -> kerr w c = false) /\
+  (forall c t, inb c (channels wp) = true -> 0 <= t -> t < duration wp -> rg wp c t = true -> tg w c t = true).
+Proof. exact constructors_all_recipes. Qed.
+Print Assumptions C08_constructors.
+(* recipes without transformation nodes satisfy [allR] *)
+Theorem C08_recipes_without_transformations : forall r, no_transR r = true -> allR r = true.
+Proof. exact no_transR_allR. Qed.
+Print Assumptions C08_recipes_without_transformations.
+Theorem C08_reversal_recipes_are_recipes : forall r, revR r = true -> allR r = true.
+Proof. exact revR_allR. Qed.
+Print Assumptions C08_reversal_recipes_are_recipes.
+(* get_subset_for_channels keeps KeyError freedom, the time guard and canonical subset lists (so that a restricted waveform
+   can be restricted / composed again): the additional invariants of C08_subset, all classes and nestings *)
+Theorem C08_subset_invariants : forall w cs w', okb w = true -> canonb w = true -> cs <> [] -> get_subset w cs = OK w' ->
+  (forall c, inb c cs = true -> kerr w c = false -> kerr w' c = false) /\
+  (forall c t, inb c cs = true -> 0 <= t -> t < duration w -> tg w c t = true -> tg w' c t = true) /\ canonb w' = true.
+Proof. exact get_subset_inv. Qed.
+Print Assumptions C08_subset_invariants.
+(* the time guard does not depend on the representation of the time *)
+Theorem C08_time_guard_proper : forall w c t t', t == t' -> tg w c t = tg w c t'.
+Proof. exact tg_proper. Qed.
+Print Assumptions C08_time_guard_proper.
